@@ -103,15 +103,6 @@ def heapifyLoop (chk : Bool) (h : Heap α) : List Nat → R (Heap α)
     let h ← siftDown chk h.fuelFor h o
     heapifyLoop chk h is
 
-/-- `heapify(f)` where the closure's effect on `priorities` is given as the new array.
-(`len = self.priorities.len(); self.reset(len); f(&mut self.priorities); sift…`) -/
-def heapifyWith (chk : Bool) (h : Heap α) (newPrio : Array α → R (Array α)) : R (Heap α) := do
-  let len := h.prio.size
-  let h : Heap α := fresh len
-  let prio ← newPrio h.prio
-  let h := { h with prio := prio }
-  heapifyLoop chk h (List.range (len / 2)).reverse
-
 /-- `priority(o)`. -/
 def priority (h : Heap α) (o : Nat) : R α := do
   let r ← aget h.removed o
